@@ -119,30 +119,39 @@ class C11(Prop):
     search_n = 1500
     design_ref = "5/C11"
     technique = ("Lean 4 proof (refinement of the index-compensating round loop to an index-free reference "
-                 "semantics, induction over rounds; trace-level corollaries) + clang-AST translator for the decisive conditions/updates of "
-                 "set_heart_beat / f_set_heart_beat / call_heart_beat with bridging lemmas + model/implementation correspondence")
+                 "semantics, induction over rounds; trace-level corollaries) + clang-AST translator (symbolic execution of the "
+                 "decisive statements of set_heart_beat / f_set_heart_beat / call_heart_beat / query_heart_beat / error_handler / "
+                 "destruct_object / reload_object / clone_object into Lean definitions the model uses, bridging lemmas as "
+                 "obligations) + model/implementation correspondence")
     level_text = ("Lean 4 theorems about an executable model of call_heart_beat / set_heart_beat / query_heart_beat / "
-                  "error_handler / destruct / clone for all populations, heart_beat scripts and tick counts; the model is "
-                  "tied to the source by definitions regenerated from the clang AST on every run (index compensation, tick "
-                  "test/reset, clamp, argument saturation, loop exit, while condition - the model uses them, bridging lemmas are "
-                  "obligations), regenerated constants, and by running the real code (hook verif_tick) and the model on the same "
-                  "generated histories; the Lean specification oracle judges every implementation trace")
+                  "error_handler (catch branch and switch-off) / destruct_object (inventory hooks incl. errors in them) / "
+                  "clone_object / reload_object / replace_program for all populations, heart_beat scripts, timer_flags and tick "
+                  "counts; the model is tied to the source by definitions regenerated from the clang AST on every run (round "
+                  "frame with the timer_flags guard, index compensation, search loop, memmove, tick test/reset, statements around "
+                  "the call, clamp, retune, growth, argument saturation, loop exit, while condition, error_handler block and "
+                  "order, destruct / reload / clone order - the model uses them, bridging lemmas are obligations), regenerated "
+                  "constants, and by running the real code (hook verif_tick) and the model on the same generated histories; the "
+                  "Lean specification oracle (incl. the clause 'every heart_beat starts with a clean command_giver / eval cost') "
+                  "judges every implementation trace")
     level_note = ("trusted: Lean kernel; extract.py + props/c11_extract.py (symbolic execution of the listed statements, grammar "
                   "in its header); the correspondence harness (differential, only the generated histories); "
-                  "heart_beat bodies are oracle scripts; the timer thread is an explicit 'flag' operation; command_giver / "
-                  "eval_cost handling around the call is not modelled")
+                  "heart_beat bodies are oracle scripts; the timer thread is an explicit 'flag' operation; the top of the "
+                  "backend loop (remove_destructed_objects / replace_programs, eval_cost reset) is reproduced by the harness; "
+                  "command_giver after a round / after restore_context is modelled but not observed")
     rule = ("cases = corpus + boundary list + seeded random histories: populations of 1..6 clones of two blueprints "
-            "(with / without heart_beat function), per-beat and one-shot heart_beat scripts of set_heart_beat(self/other, "
-            "0/1/n/out-of-range), query, destruct(self/other), clone(+enable), error, timer-fired and heart_beats(), the "
-            "same operations between ticks, 3..25 ticks; a case is non-trivial when its trace has a beat; distinct = "
-            "distinct canonical implementation trace")
-    not_covered = ["error_handler's switch-off and the list search / memmove of set_heart_beat are tied by correspondence only (not extracted)",
-                   "timer_flags without TIMER_FLAG_HEARTBEAT (no round at all), perc_hb_probes / num_hb_calls statistics",
-                   "replace_program() is not scripted (call_heart_beat re-reads ob->prog->heart_beat on every visit: same branch as /c11/nohb)",
+            "(with / without heart_beat function), some living, some carrying others; per-beat and one-shot heart_beat scripts "
+            "of set_heart_beat(self/other, 0/1/n/out-of-range), query, destruct(self/other, + error afterwards), clone(+enable), "
+            "reload_object(self/other), replace_program, error, caught error, enable_commands, eval-cost use, timer-fired and "
+            "heart_beats(); move_or_destruct hooks incl. failing ones; the same operations between ticks; timer_flags changes; "
+            "3..25 ticks; a case is non-trivial when its trace has a beat; distinct = distinct canonical implementation trace")
+    not_covered = ["the direction of set_heart_beat's search loop is proved unobservable (entries unique per object) instead of being modelled",
+                   "perc_hb_probes / num_hb_calls statistics, heart_beat_status()",
                    "truncation of a round by the real timer thread is an explicit scripted operation (the thread is C19)",
-                   "command_giver / current_interactive / eval_cost handling around the heart_beat call",
-                   "reload_object() (also calls set_heart_beat(ob, 0)) is not scripted",
-                   "errors caught by catch() inside a heart_beat (they do not reach the uncaught branch of error_handler)"]
+                   "command_giver after a completed / aborted round (restore_context) is tied by a shape obligation only; current_interactive is not modelled",
+                   "timer_flags bits RESET / CALLOUT run look_for_objects_to_swap / call_out in the harness but nothing is pending there (C10 covers call_out)",
+                   "restrict_destruct refusals, inventory items that move away in move_or_destruct, nested inventories",
+                   "wrap of the short countdown of an object without heart_beat function (needs 32769 ticks, not observable: such an object is never called)",
+                   "errors in the master's error handler (in_error re-entry)"]
 
     def gen_extra(self, ctx, bdir):
         """T4: the decisive conditions / updates of set_heart_beat, f_set_heart_beat and call_heart_beat, recovered from
